@@ -554,4 +554,7 @@ def run(rep, prog, thorough):
     check_registry(rep, prog)
     from .c01 import check_callout_accounting, check_getcallouts_progress
     check_callout_accounting(rep, prog, pfx="C03.R3.callouts-bounded-walk")
+    # every value of the flag / type fields is displayed: no conversion or sanity test rejects an SRC for what a field holds
+    from .c01 import check_no_value_rejection
+    check_no_value_rejection(rep, prog, "C03.R1.words-flags", sids=[0x5053, 0x5353])
     rep.floor("obligations", len(rep.obligations), 40)
